@@ -98,6 +98,7 @@ def run(check, prog):
     c06.illumination_preparation(check, prog)
     # each channel's field under its own label (rule shared with C06)
     c06.channels(check, prog)
+    c06.channel_axis_first(check, prog)
     f9_point_coordinates(check, prog)
     # the points the theory is asked at are the detector's, in units of 1/k, for
     # every kind of detector (rule shared with C07)
